@@ -43,6 +43,9 @@ type RTask struct {
 type RAction struct {
 	Kind  string   `json:"kind"` // json quiet show vars noargs
 	Tasks []string `json:"tasks,omitempty"`
+	// ROCache (json / quiet): the cache file is read-only while this invocation lasts. spok may stop
+	// with an error about its cache; a run that reports success reports all of it.
+	ROCache bool `json:"ro_cache,omitempty"`
 }
 
 // ReportCase is a C20 case.
@@ -62,13 +65,13 @@ type ReportCase struct {
 	Nested string `json:"nested,omitempty"`
 }
 
-var reportNames = []string{"default", "build", "lint", "test", "zeta", "Apple"}
+var reportNames = []string{"default", "build", "lint", "test", "zeta", "Apple", "coverage", "integrationtests"} // also lengths 8 and 16: a full tab stop
 var reportDocs = []string{"", "Run the thing", "builds everything now", "x", "Lint all the Go code", "docs with  two spaces", "Reach 100% statement coverage", "%s %d %v"}
 var payloads = []payload{
 	{"", ""}, {"hello", "hello"}, {"two words", "two words"}, {`line1\nline2\n`, "line1\nline2\n"}, {"trail  ", "trail  "},
 	{`x=1;y`, "x=1;y"}, {`tab\there`, "tab\there"}, {`\n`, "\n"}, {"a|b&c", "a|b&c"}, {"  lead", "  lead"},
 }
-var reportVarNames = []string{"VERSION", "NAME", "other", "FLAG_X", "Zed"}
+var reportVarNames = []string{"VERSION", "NAME", "other", "FLAG_X", "Zed", "GIT_HASH", "RELEASE_CODENAME"}
 var reportVarValues = []string{"0.3.0", "spok", "a b", "", "--flag=1", "x/y", "50%", "%d%%"}
 
 func genReport(t *rapid.T) ReportCase {
@@ -120,6 +123,7 @@ func genReportBody(t *rapid.T) ReportCase {
 		if a.Kind == "json" || a.Kind == "quiet" {
 			perm := rapid.Permutation(names[:n]).Draw(t, "reqorder")
 			a.Tasks = append([]string(nil), perm[:rapid.IntRange(1, n).Draw(t, "nreq")]...)
+			a.ROCache = i > 0 && rapid.IntRange(0, 5).Draw(t, "ro_cache") == 0
 		}
 		c.Actions = append(c.Actions, a)
 	}
@@ -330,9 +334,23 @@ func execReport(s *ev.Shard, b *sandbox.Box, c ReportCase) *rp.Fail {
 		switch a.Kind {
 		case "json", "quiet":
 			flag := "--" + a.Kind
+			cachePath := filepath.Join(b.Proj, ".spok", "cache.json")
+			if a.ROCache {
+				_ = os.Chmod(cachePath, 0o444)
+			}
 			r := b.Run(cwd, env, runTimeout, append([]string{flag}, a.Tasks...)...)
+			if a.ROCache {
+				_ = os.Chmod(cachePath, 0o644)
+			}
 			if r.TimedOut {
 				return &rp.Fail{Sig: "harness", Msg: "spok timed out"}
+			}
+			if a.ROCache && r.Exit != 0 && strings.Contains(strings.ToLower(sandbox.Strip(r.Stderr)), "cache") {
+				// refused for want of a writable cache: what ran is unknown to the skip model from here on
+				if s != nil {
+					s.Class("run_refused_unwritable_cache")
+				}
+				return nil
 			}
 			if r.Exit != 0 {
 				return &rp.Fail{Sig: "valid-run-failed", Size: size, Msg: fmt.Sprintf("%s: `spok %s %v` failed: %s", desc, flag, a.Tasks, sandbox.Strip(r.Stderr))}
